@@ -1,0 +1,53 @@
+//go:build verif
+
+// Contracts for the verif framework (/verif). Comment-only: this file
+// declares nothing and is compiled only with -tags=verif.
+
+package par
+
+//@ property C10: (*Cache).Do, (*Cache).Get
+
+// ---- Cache (C10): rely-guarantee over the shared entry state ----
+//
+// Ghost history per entry x (a *cacheEntry): gCalls[x] = number of invocations of the
+// user function for x so far, gR[x] = the value that invocation returned.
+// gHeld / myHeld: see /verif/specs/sync.spec.
+//@ shared cacheEntry.done, cacheEntry.result, gCalls, gR, gHeld
+//
+// invariant of the shared state, at every point another goroutine can observe:
+// done is 0 or 1; done == 1 means the function ran exactly once and result is its value;
+// while the entry's mutex is free and done == 0 the function has not run.
+//@ ginv cacheInv: forall x int {fld(cacheEntry, done)[x]} {gCalls[x]} :: (fld(cacheEntry, done)[x] == 0 || fld(cacheEntry, done)[x] == 1) && gCalls[x] >= 0 && (fld(cacheEntry, done)[x] == 1 ==> gCalls[x] == 1 && fld(cacheEntry, result)[x] == gR[x]) && (!gHeld[x] && fld(cacheEntry, done)[x] == 0 ==> gCalls[x] == 0)
+//
+// what other goroutines may do: nothing to an entry whose mutex this goroutine holds,
+// and nothing to a published entry (done == 1 is final, result frozen).
+//@ rely cacheRely: forall x int {fld(cacheEntry, done)[x]} {fld(cacheEntry, result)[x]} {gCalls[x]} {gR[x]} {gHeld[x]} :: (x == myHeld && x != 0 ==> fld(cacheEntry, done)[x] == old(fld(cacheEntry, done))[x] && fld(cacheEntry, result)[x] == old(fld(cacheEntry, result))[x] && gCalls[x] == old(gCalls)[x] && gR[x] == old(gR)[x] && gHeld[x] == old(gHeld)[x]) && (old(fld(cacheEntry, done))[x] == 1 ==> fld(cacheEntry, done)[x] == 1 && fld(cacheEntry, result)[x] == old(fld(cacheEntry, result))[x] && gCalls[x] == old(gCalls)[x] && gR[x] == old(gR)[x])
+//
+// what this goroutine may do: change only the entry whose mutex it holds (or has just
+// released), and never a published entry.
+//@ guar cacheGuar: forall x int {fld(cacheEntry, done)[x]} {fld(cacheEntry, result)[x]} {gCalls[x]} {gR[x]} {gHeld[x]} :: (x != myHeld && x != old(myHeld) ==> fld(cacheEntry, done)[x] == old(fld(cacheEntry, done))[x] && fld(cacheEntry, result)[x] == old(fld(cacheEntry, result))[x] && gCalls[x] == old(gCalls)[x] && gR[x] == old(gR)[x] && gHeld[x] == old(gHeld)[x]) && (old(fld(cacheEntry, done))[x] == 1 ==> fld(cacheEntry, done)[x] == 1 && fld(cacheEntry, result)[x] == old(fld(cacheEntry, result))[x] && gCalls[x] == old(gCalls)[x] && gR[x] == old(gR)[x])
+
+// sync.Map as used here: one entry (an interface value holding a *cacheEntry) per key.
+//@ pure func entryBox(c int, key int) int
+//@ extern (*sync.Map).Load(m, key) (value, ok)
+//@   pure
+//@   ensures ok ==> value != nil && value == entryBox(baseOf(m), key) && isType(value, cacheEntry) && unbox(value) != 0
+//@ extern (*sync.Map).LoadOrStore(m, key, value) (actual, loaded)
+//@   pure
+//@   ensures actual != nil && actual == entryBox(baseOf(m), key) && isType(actual, cacheEntry) && unbox(actual) != 0
+//@   ensures !loaded ==> actual == value
+
+// Do: f is invoked only under the entry's lock and only if it has not been invoked
+// for this entry; Do returns, after that single invocation completed, the value it returned.
+//@ func (*Cache).Do
+//@   requires c != nil && myHeld == 0
+//@   callee f() (r): modifies gCalls, gR; ensures gCalls[e] == old(gCalls)[e] + 1 && gR[e] == r; ensures forall x int {gCalls[x]} {gR[x]} :: x != e ==> gCalls[x] == old(gCalls)[x] && gR[x] == old(gR)[x]
+//@   at call param:f#1: requires myHeld == e && gCalls[e] == 0 && fld(cacheEntry, done)[e] == 0
+//@   ensures myHeld == 0
+//@   ensures fld(cacheEntry, done)[unbox(entryBox(c, key))] == 1 && gCalls[unbox(entryBox(c, key))] == 1 && result == gR[unbox(entryBox(c, key))]
+
+// Get never blocks (no Lock / Wait call) and returns nil or the published value.
+//@ func (*Cache).Get
+//@   requires c != nil
+//@   nocall (*sync.Mutex).Lock, (*sync.Cond).Wait
+//@   ensures result == nil || (gCalls[unbox(entryBox(c, key))] == 1 && result == gR[unbox(entryBox(c, key))])
